@@ -111,7 +111,20 @@ func c05r1(c *Ctx) {
 		}
 		pairOK := km != nil && vm != nil && vm[1] == km[1]+" + 1"
 		stride := false
-		if ld, ok := call.Common().Args[0].(*ssa.UnOp); ok {
+		// the key as the caller sees it when the write sits in a per-pair helper that is handed key and value
+		keyArg, keyEnv := call.Common().Args[0], s.Env
+		for d := 0; d < 4; d++ {
+			par, isPar := keyArg.(*ssa.Parameter)
+			if !isPar {
+				break
+			}
+			a, pe := keyEnv.actual(par)
+			if a == nil {
+				break
+			}
+			keyArg, keyEnv = a, pe
+		}
+		if ld, ok := keyArg.(*ssa.UnOp); ok {
 			if ia, ok := ld.X.(*ssa.IndexAddr); ok {
 				if ph, ok := ia.Index.(*ssa.Phi); ok {
 					zero, step := false, false
@@ -128,7 +141,7 @@ func c05r1(c *Ctx) {
 				}
 				// the list consumed two at a time from its start: `for rest := Arguments; …; rest = rest[2:] { rest[0], rest[1] }`
 				if ph, ok := ia.X.(*ssa.Phi); ok {
-					if init, adv, ok := s.Env.sliceInduction(ph); ok && strings.HasSuffix(s.Env.Term(init), ".VMInput.Arguments") {
+					if init, adv, ok := keyEnv.sliceInduction(ph); ok && strings.HasSuffix(keyEnv.Term(init), ".VMInput.Arguments") {
 						two := false
 						for _, k := range adv.c {
 							two = k == 2
